@@ -20,7 +20,8 @@ LEVEL_TEXT = (
 LEVEL_NOTE = (
     'Trusted: Lean kernel (propext, Classical.choice, Quot.sound); the hand model of the Python statements '
     '(validated by correspondence, not proved equal to the Python), in particular Python re for the regex '
-    '(alternation = first alternative that is a prefix), sorted() (modelled as an adjacent-pairs order test), '
+    '(alternation = first alternative that is a prefix), sorted() (modelled as CPython count_run + binary '
+    'insertion with every comparison in order, below 64 elements; tied by a direct sorted() correspondence), '
     'int()/float() on text; dateutil is an uninterpreted parameter (operands it reads as dates are outside the '
     'domain); str.upper on non-ASCII. SUMIF/SUMIFS are excluded while the installed pandas has no '
     'DataFrame.applymap (checked at run time).')
@@ -31,12 +32,14 @@ TRUSTED = [
     'equal to the Python)',
     'translator extractors/a_core.py for CRITERIA_REGEX, CRITERIA_OPERATORS and sort_precedence',
     'Python re: `(a|b|…)?(.*)` picks the first alternative that is a prefix; `.` stops at a newline',
-    'Python sorted() with ExcelType.__lt__ is modelled as "no element is smaller than its predecessor"',
+    'Python sorted()/list != on ExcelType objects: modelled as CPython performs them (count_run, binary insertion, '
+    'identity before ==; 64+ elements that are not one run are not modelled), validated against sorted() itself',
     'dateutil.parser (uninterpreted; operands it accepts are excluded), str.upper() on non-ASCII text',
     'pandas DataFrame construction / .values / .flat (row-major)',
 ]
 ASSUMPTIONS = [
-    'cells are numbers and non-empty texts (blank, boolean, date and error cells are only compared with the model)',
+    'cells are numbers and non-empty texts (blank, boolean, numeric-text, date and error cells are compared with the '
+    'model only: MATCH over such arrays, including the exception raised when an error cell is compared, is drift-checked)',
     'text operands are words: begin with a letter, no trailing blank, do not spell true/false/inf/nan and are '
     'not read as a date by dateutil; numeric operands follow -?digits(.digits)? with <= 15 digits; other operand '
     'spellings (" 1", "1e3", "+1", "", "true") are outside the statement',
@@ -357,6 +360,59 @@ def run(ctx):
                                                                      False)),
                           {'fn': 'VLOOKUP', 'lookup': key, 'table': tb, 'col': col, 'range_lookup': False}))
 
+    # random arrays of blanks, booleans, numeric texts and errors: MATCH as Python performs it (the sorted()
+    # test with every comparison, list != with ==, the exception when an error value is compared)
+    ODD_POOL = [1, 2, 3, 6, 0, -1, 2.5, 'a', 'B', '1e2', '5', '', None, None, True, False, 'E', 'E2']
+
+    def oddw2(x):
+        return {'E': 'E:NA', 'E2': 'E:NUM'}.get(x) if isinstance(x, str) and x in ('E', 'E2') else wv(x)
+
+    def oddv2(x):
+        if x == 'E':
+            return xlerrors.NaExcelError()
+        if x == 'E2':
+            return xlerrors.NumExcelError()
+        return x
+    nodd = 0 if replay_only else 6000 if thorough else 700
+    sort_cases = []
+    for _ in range(nodd):
+        k = rng.randint(1, 8)
+        style = rng.random()
+        if style < 0.35:
+            col = [rng.choice(ODD_POOL) for _ in range(k)]
+        else:   # mostly ordinary data with one or two odd cells
+            col = sorted((rng.choice(NUM_CELLS[:8]) for _ in range(k)), reverse=style > 0.8)
+            for _ in range(rng.randint(1, 2)):
+                col[rng.randrange(k)] = rng.choice(ODD_POOL[9:])
+        key = rng.choice([1, 2, 366, 0, 'a', False, True, '1e2', 2.5])
+        mt = rng.choice([1, 1, -1, 0, 'default'])
+        wcol = 'A:' + ';'.join(oddw2(x) for x in col)
+        if mt == 'default':
+            call = (lambda col=col, key=key: F['MATCH'](key, arr([[oddv2(x)] for x in col])))
+        else:
+            call = (lambda col=col, key=key, mt=mt: F['MATCH'](key, arr([[oddv2(x)] for x in col]), mt))
+        cases.append(Case('match-odd-cells', ['match', wv(key), wcol, 'I:1' if mt == 'default' else wv(mt)], call,
+                          {'fn': 'MATCH', 'lookup': key, 'array': col, 'match_type': mt}))
+        sort_cases.append((col, rng.random() < 0.3))
+    # the model of sorted() itself: order of the original positions, or the exception of the first failing `<`
+    sresp = ctx.driver.batch(['\t'.join(['C15', 'sortidx', 'A:' + ','.join(oddw2(x) for x in col),
+                                         'B:1' if rv else 'B:0']) for col, rv in sort_cases])
+    for (col, rv), r in zip(sort_cases, sresp):
+        flat = arr([[oddv2(x)] for x in col]).flat
+        try:
+            out = sorted(flat, reverse=rv)
+            pos = {}
+            for i, o in enumerate(flat):
+                pos.setdefault(id(o), []).append(i)
+            real = ','.join(str(pos[id(o)].pop(0)) for o in out)
+        except Exception as exc:  # noqa: BLE001
+            real = 'X:' + type(exc).__name__
+        res.evaluations += 1
+        res.count('sorted-model')
+        if parse_kv(r).get('impl') != real:
+            res.drift.append({'kind': 'sorted()', 'array': repr(col), 'reverse': rv,
+                              'impl_model': parse_kv(r).get('impl'), 'real': real})
+
     # ---------------------------------------------------------------- COUNTIFS
     npairs_runs = 0 if replay_only else 30000 if thorough else 500
     for _ in range(npairs_runs):
@@ -519,6 +575,39 @@ def run(ctx):
         inp = {**c.inp, 'route': 'formula', 'formula': cells[target]}
         classify(res, inp, real, spec, spec, 'formula over a real range')
     res.count('via_formula', nform)
+
+    # MATCH through formulas over ranges with an empty cell / an error cell / booleans (outside the statement:
+    # compared with the model; a Python exception of the body surfaces as RuntimeError from the evaluator)
+    odd_formulas = [] if replay_only else [
+        ({'A1': 6, 'A3': '=SQRT(-1)'}, 'A1:A3', 366, None, [6, None, 'E2']),
+        ({'A3': False, 'A4': '1e2'}, 'A3:A5', False, None, [False, '1e2', None]),
+        ({'A1': 1, 'A2': 2, 'A4': 4}, 'A1:A4', 3, 1, [1, 2, None, 4]),
+        ({'A1': 1, 'A2': 2, 'A4': 4}, 'A1:A4', 0, 0, [1, 2, None, 4]),
+        ({'A1': 4, 'A2': 2, 'A4': 1}, 'A1:A4', 3, -1, [4, 2, None, 1]),
+        ({'A1': 1, 'A2': '=NA()', 'A3': 3}, 'A1:A3', 3, 0, [1, 'E', 3]),
+        ({'A1': 1, 'A2': '=NA()', 'A3': 3}, 'A1:A3', 3, 1, [1, 'E', 3]),
+        ({'A1': True, 'A2': 'x', 'A3': 1}, 'A1:A3', 1, 1, [True, 'x', 1]),
+    ]
+    oreqs = []
+    for cells_, rng_, key, mt, col in odd_formulas:
+        oreqs.append('\t'.join(['C15', 'match', wv(key), 'A:' + ';'.join(oddw2(x) for x in col),
+                                'I:1' if mt is None else wv(mt)]))
+    for (cells_, rng_, key, mt, col), r in zip(odd_formulas, ctx.driver.batch(oreqs)):
+        impl = parse_kv(r)['impl']
+        text = f'=MATCH({lit(key)},{rng_})' if mt is None else f'=MATCH({lit(key)},{rng_},{lit(mt)})'
+        cells = {f'Sheet1!{a}': v for a, v in cells_.items()}
+        cells['Sheet1!Z1'] = text
+
+        def ev(cells=cells):
+            m = ModelCompiler().read_and_parse_dict(cells)
+            return Evaluator(m).evaluate('Sheet1!Z1')
+        real = call_real(ev)
+        res.evaluations += 1
+        res.count('formula:match-odd-cells')
+        same = (real.startswith('X:') and impl.startswith('X:')) or same_value(real, impl)
+        if not same:
+            res.drift.append({'kind': 'MATCH formula over odd cells', 'formula': text, 'cells': repr(cells_),
+                              'impl_model': impl, 'real': real})
 
     # ================================================================ SUMIF / SUMIFS where pandas supports them
     if hasattr(pandas.DataFrame, 'applymap'):
